@@ -144,3 +144,30 @@ Proof.
   intros Wp HP. apply peq_of_deq; [|exact Wp|apply diff_integrate_deq; [apply Wp|exact HP]].
   apply wf_pdiff. apply pint_inv in HP as [_ ->]. apply wf_mk.
 Qed.
+
+(* ------------------------------------------------------------------ stated with the model of == *)
+Lemma pdiff_padd n p q : wf p -> wf q -> peq (pdiff (padd p q) n) (padd (pdiff p n) (pdiff q n)) = true.
+Proof.
+  intros Wp Wq. apply peq_of_deq; [apply wf_pdiff; apply wf_padd|apply wf_padd|].
+  apply pdiff_padd_deq; [apply Wp|apply Wq].
+Qed.
+Lemma pdiff1_scale c p : wf p -> peq (pdiff (pmul (pconst c) p) 1) (pmul (pconst c) (pdiff p 1)) = true.
+Proof.
+  intros Wp. apply peq_of_deq; [apply wf_pdiff; apply wf_pmul|apply wf_pmul|]. apply pdiff1_scale_deq. apply Wp.
+Qed.
+Lemma pdiff1_pmul p q : wf p -> wf q ->
+  peq (pdiff (pmul p q) 1) (padd (pmul (pdiff p 1) q) (pmul p (pdiff q 1))) = true.
+Proof.
+  intros Wp Wq. apply peq_of_deq; [apply wf_pdiff; apply wf_pmul|apply wf_padd|].
+  apply pdiff1_pmul_deq; [apply Wp|apply Wq].
+Qed.
+Lemma pdiff_succ p n : wf p -> peq (pdiff p (S n)) (pdiff (pdiff p n) 1) = true.
+Proof.
+  intros Wp. apply peq_of_deq; [apply wf_pdiff; apply Wp|apply wf_pdiff; apply wf_pdiff; apply Wp|].
+  apply pdiff_succ_deq. apply Wp.
+Qed.
+Lemma pint_raise_iff p : pint p = Raise "ValueError"%string <-> In (-1)%Z (keys p).
+Proof.
+  split; [|apply pint_raise]. intro H. destruct (in_dec Z.eq_dec (-1)%Z (keys p)) as [I|I]; [exact I|].
+  rewrite (pint_ok p I) in H. discriminate.
+Qed.
